@@ -464,7 +464,11 @@ class Ref:
             a = self.hw_names().get(s.arg.name if isinstance(s.arg, Var) else None)
             if a is None: raise Unsupported('strobe operand')
             st.events.append(('W', a, None, 0)); yield None, st; return
-        raise Unsupported('raw statement ' + s.kind)    # load/store have no C meaning: relational checks only
+        if s.kind == 'load' and isinstance(s.arg, E) and not isinstance(s.arg, Deref):
+            # load(e) of an ordinary value: e is evaluated (its side effects happen), the value goes to the accumulator only
+            for _, s2 in self.rvalue(st, s.arg, fn, 0): yield None, s2
+            return
+        raise Unsupported('raw statement ' + s.kind)    # store / load of a hardware register have no C meaning: relational checks only
 
     def loop(self, st, s, fn):
         def body_then(state, first):
